@@ -26,6 +26,9 @@ func c07(c *Ctx) {
 		"isPESPayload and encoding/binary.BigEndian.UintN only read their argument",
 		"the audited reads-only callee table of package ownership (rule S3, as in C16): astikit BitsWriter.Write/WriteBytesN, io.Writer/io.Reader contracts"}
 	demuxrules.New(c.P, r).C07()
+	// a Packet object is never recycled across reads: one that was skipped or failed to parse would hand its adaptation field
+	// (of another PID) to the next packet parsed into it (I9 of C16)
+	demuxrules.New(c.P, r).PacketsNotMutated()
 	// the pool and its per-PID accumulators live for the whole pass: replacing the pool or removing an accumulator while
 	// demuxing (because of a parse error on, or a table delivered for, another PID) loses the unit a PID is assembling
 	extrarules.WhoMayStoreField(c.P, r, "I8", "Demuxer.packetPool/stored-by", "Demuxer", "packetPool", []string{"NewDemuxer", "(*Demuxer).Rewind"}, 2, nil, "stores",
